@@ -54,7 +54,14 @@ def observe(calc, q):
     if q == "tp_volumes":
         return arr_digest([calc.pressure_base.volumes])
     if q == "compliances":
-        return arr_digest([calc._compliances[k] for k in sorted(calc._compliances, key=lambda k: k.voigt)])
+        out = []                                   # through the public attributes s11 .. s66 of the volume base
+        for i in range(1, 7):
+            for j in range(i, 7):
+                try:
+                    out.append(numpy.asarray(getattr(calc.volume_base, "s%d%d" % (i, j))))
+                except AttributeError:
+                    out.append(numpy.zeros(1))
+        return arr_digest(out)
     if q == "static_table":
         m = hashlib.sha256()
         for v in calc.elast_data.volumes:
